@@ -1199,7 +1199,16 @@ pub fn peer_receiver(seed: u64, family: &str, variant: u8) -> Scenario {
     Scenario {
         family: family.to_string(),
         seed,
-        net: NetCfg { seed: r.next(), latency_us: *r.pick(&[0u64, 0, 1000, 10_000, 40_000]), ..Default::default() },
+        net: {
+            let mut net = NetCfg { seed: r.next(), latency_us: *r.pick(&[0u64, 0, 1000, 10_000, 40_000]), ..Default::default() };
+            // retransmission family: real loss on the wire in most runs (the peer's ACKs and
+            // SACKs then describe genuine holes; ACKs get lost too)
+            if variant == 2 && r.chance(0.6) {
+                net.drop_p = *r.pick(&[0.01, 0.03, 0.08, 0.15]);
+                net.protect_syn = true;
+            }
+            net
+        },
         nodes: vec![NodeCfg { ipv6, opts, env: gen_env(&mut r) }],
         connects,
         accepts,
